@@ -26,7 +26,7 @@ TInit ==
     /\ req = [w \in Workers |-> "G"] /\ started = [w \in Workers |-> 0]
     /\ out = [w \in Workers |-> NoOut] /\ wpos = [w \in Workers |-> 0]
 
-Known == {"accept", "step", "tick", "resp", "end", "preempt"}
+Known == {"accept", "step", "tick", "resp", "end", "preempt", "prime", "cut", "zero"}
 
 \* design level: replay the granted operation on the model worker (render/finish are silent)
 StepModel(e) ==
@@ -35,8 +35,17 @@ StepModel(e) ==
     ELSE /\ UNCHANGED cvars /\ tracking' = FALSE
          /\ (IF tracking THEN RecordDrift(tid, l, e.op) ELSE TRUE)
 
+RenderFinish(w) ==      \* Render ; Finish as one step (the response has been received)
+    /\ out' = [out EXCEPT ![w] = [src |-> out[w].src, d |-> mem[w].d, leak |-> mem[w].leak, at |-> clock]]
+    /\ mem' = [mem EXCEPT ![w].leak = (mem[w].leak \/ req[w] \in {"GP", "GD"})]
+    /\ pc' = [pc EXCEPT ![w] = "idle"]
+    /\ UNCHANGED <<dir, hist, clock, T, file, req, started, wpos>>
+
 Silent(w) == \* bring a model worker that has rendered back to idle
-    IF pc[w] = "render" THEN Render(w) ELSE IF pc[w] = "done" THEN Finish(w) ELSE UNCHANGED cvars
+    IF pc[w] = "render" THEN RenderFinish(w) ELSE IF pc[w] = "done" THEN Finish(w) ELSE UNCHANGED cvars
+
+PrimedFile == [exists |-> TRUE, mtime |-> clock, zero |-> FALSE,
+               chunks |-> [i \in 1..Full |-> [d |-> dir, k |-> i, leak |-> FALSE]]]
 
 Apply(e) ==
     CASE e.ev = "accept" ->
@@ -47,6 +56,16 @@ Apply(e) ==
       [] e.ev = "step" -> StepModel(e) /\ verdict' = "ok"
       [] e.ev = "tick" -> Tick(T) /\ UNCHANGED tracking /\ verdict' = "ok"
       [] e.ev = "preempt" -> UNCHANGED <<cvars, tracking>> /\ verdict' = "ok"
+      \* a request served alone before the race left a complete cache file of the current directory
+      [] e.ev = "prime" -> /\ file' = PrimedFile /\ UNCHANGED <<dir, hist, clock, T, pc, mem, req, started, out, wpos, tracking>>
+                           /\ verdict' = "ok"
+      \* the remains of a crashed writer: environment actions of module Cache
+      [] e.ev = "cut" -> /\ (IF file.exists /\ e.keep < Len(file.chunks) THEN Cut(e.keep) /\ UNCHANGED tracking
+                              ELSE UNCHANGED cvars /\ tracking' = FALSE)
+                         /\ verdict' = "ok"
+      [] e.ev = "zero" -> /\ (IF file.exists /\ ~file.zero THEN Zero /\ UNCHANGED tracking
+                               ELSE UNCHANGED cvars /\ tracking' = FALSE)
+                          /\ verdict' = "ok"
       [] e.ev = "resp" ->
             /\ (IF tracking /\ e.w \in Workers /\ pc[e.w] \in {"render", "done"}
                 THEN Silent(e.w) ELSE UNCHANGED cvars)
